@@ -97,10 +97,23 @@ def opUTF8ALL (len : Nat) (pre : Array UInt8) : String :=
     (x.1, x.2.status)
   s!"{r.1} {r.2.1} {r.2.2.1} {r.2.2.2}"
 
+def opF32ALL (hi : Nat) : String :=
+  let b5 : Array UInt8 := Array.replicate 5 0
+  let b3 : Array UInt8 := Array.replicate 3 0
+  let h := (List.range 65536).foldl (fun (h : UInt64) lo =>
+    let bits := UInt32.ofNat (hi * 65536 + lo)
+    let r1 := cbor_encode_single bits b5 0 5
+    let r2 := cbor_encode_half bits b3 0 3
+    let h := fnv (fnv h r1.1) r2.1
+    let h := r1.2.foldl (fun h b => fnv h b.toUInt64) h
+    r2.2.foldl (fun h b => fnv h b.toUInt64) h) 1469598103934665603
+  s!"{h}"
+
 def genOp (ws : List String) : Option String :=
   match ws with
   | ["SD", h] => (parseHex h).map opSD
   | ["ENC", fn, v, n] => do opENC fn (← v.toNat?) (← n.toNat?)
+  | ["F32ALL", hi] => do some (opF32ALL (← hi.toNat?))
   | ["UTF8", h] => (parseHex h).map opUTF8
   | ["UTF8ALL", l, h] => do some (opUTF8ALL (← l.toNat?) (← parseHex h))
   | ["MUL", a, b] => do
